@@ -267,20 +267,28 @@ def Links.setAgg (l : Links) : Links :=
 /-- `Links::register_reporter` -/
 def Links.registerReporter (l : Links) (id : Nat) : Links :=
   let e := (alGet l.forward id).getD {}
+  -- the reporter handed over is a fresh one (all counters zero)
   { l with forward := alSet l.forward id { e with hasReporter := true },
-           lane := alSet l.lane id ((alGet l.lane id).getD {}) }
+           lane := alSet l.lane id {} }
+
+/-- Replace the entry of lane `id` (its reporter, if any, is told the new size) and set the running total. -/
+def Links.updEntry (l : Links) (id : Nat) (e' : LaneLinks) (t : Nat) : Links :=
+  let l0 : Links := { l with forward := alSet l.forward id e', total := t }
+  if e'.hasReporter then l0.setLaneLinks id e'.remotes.length else l0
+
+/-- `LaneLinks::insert` on `forward.entry(id).or_default()` -/
+def Links.addRemote (l : Links) (id remote : Nat) : Links :=
+  if ((alGet l.forward id).getD {}).remotes.contains remote then
+    { l with forward := alSet l.forward id ((alGet l.forward id).getD {}) }
+  else
+    l.updEntry id { (alGet l.forward id).getD {} with
+      remotes := ((alGet l.forward id).getD {}).remotes ++ [remote] } (l.total + 1)
 
 /-- `Links::insert` -/
 def Links.insert (l : Links) (id remote : Nat) : Links :=
-  let e := (alGet l.forward id).getD {}
-  let l1 :=
-    if e.remotes.contains remote then { l with forward := alSet l.forward id e }
-    else
-      let e' := { e with remotes := e.remotes ++ [remote] }
-      let l0 := { l with forward := alSet l.forward id e', total := l.total + 1 }
-      if e.hasReporter then l0.setLaneLinks id e'.remotes.length else l0
-  let l2 := l1.setAgg
-  { l2 with backwards := alSet l2.backwards remote (setInsert ((alGet l2.backwards remote).getD []) id) }
+  { (l.addRemote id remote).setAgg with
+    backwards := alSet (l.addRemote id remote).setAgg.backwards remote
+      (setInsert ((alGet (l.addRemote id remote).setAgg.backwards remote).getD []) id) }
 
 def Links.isLinked (l : Links) (remote id : Nat) : Bool :=
   match alGet l.forward id with
@@ -293,20 +301,24 @@ def Links.removeFromLane (l : Links) (id remote : Nat) : Links :=
   | none => l
   | some e =>
     if e.remotes.contains remote then
-      let e' := { e with remotes := setErase e.remotes remote }
-      let l0 := { l with forward := alSet l.forward id e', total := l.total - 1 }
-      if e.hasReporter then l0.setLaneLinks id e'.remotes.length else l0
+      l.updEntry id { e with remotes := setErase e.remotes remote } (l.total - 1)
     else l
+
+/-- first half of `Links::remove`: the forward entry and the counters -/
+def Links.removeCore (l : Links) (id remote : Nat) : Links :=
+  match alGet l.forward id with
+  | some _ => (l.removeFromLane id remote).setAgg
+  | none => l
 
 /-- `Links::remove`; the Boolean is `schedule_prune`. -/
 def Links.remove (l : Links) (id remote : Nat) : Links × Bool :=
-  let l1 := (match alGet l.forward id with | some _ => (l.removeFromLane id remote).setAgg | none => l)
-  match alGet l1.backwards remote with
+  match alGet (l.removeCore id remote).backwards remote with
   | some lanes =>
-    let lanes' := setErase lanes id
-    if lanes'.isEmpty then ({ l1 with backwards := alErase l1.backwards remote }, true)
-    else ({ l1 with backwards := alSet l1.backwards remote lanes' }, false)
-  | none => (l1, false)
+    if (setErase lanes id).isEmpty then
+      ({ l.removeCore id remote with backwards := alErase (l.removeCore id remote).backwards remote }, true)
+    else ({ l.removeCore id remote with
+            backwards := alSet (l.removeCore id remote).backwards remote (setErase lanes id) }, false)
+  | none => (l.removeCore id remote, false)
 
 def Links.linkedFrom (l : Links) (id : Nat) : List Nat :=
   match alGet l.forward id with
@@ -319,44 +331,63 @@ def Links.removeRemote (l : Links) (remote : Nat) : Links :=
   let l1 := lanes.foldl (fun acc id => acc.removeFromLane id remote) { l with backwards := alErase l.backwards remote }
   l1.setAgg
 
+/-- one step of the `remove_lane` iterator: drop lane `id` from the backwards entry of `remote` -/
+def unlinkBack (id : Nat) (acc : Links × List (Nat × Bool)) (remote : Nat) : Links × List (Nat × Bool) :=
+  match alGet acc.1.backwards remote with
+  | some lanes =>
+    if (setErase lanes id).isEmpty then
+      ({ acc.1 with backwards := alErase acc.1.backwards remote }, acc.2 ++ [(remote, true)])
+    else ({ acc.1 with backwards := alSet acc.1.backwards remote (setErase lanes id) }, acc.2 ++ [(remote, false)])
+  | none => (acc.1, acc.2 ++ [(remote, false)])
+
+/-- the forward half of `remove_lane`: the entry (with its reporter) is removed, the reporter told `0` -/
+def Links.dropLane (l : Links) (id : Nat) (e : LaneLinks) : Links :=
+  (if e.hasReporter then
+    Links.setLaneLinks { l with forward := alErase l.forward id, total := l.total - e.remotes.length } id 0
+   else { l with forward := alErase l.forward id, total := l.total - e.remotes.length }).setAgg
+
 /-- `Links::remove_lane`, iterator fully consumed: the unlinks to perform `(remote, schedule_prune)`. -/
 def Links.removeLane (l : Links) (id : Nat) : Links × List (Nat × Bool) :=
   match alGet l.forward id with
   | none => (l, [])
-  | some e =>
-    let l0 := { l with forward := alErase l.forward id, total := l.total - e.remotes.length }
-    let l1 := (if e.hasReporter then l0.setLaneLinks id 0 else l0).setAgg
-    e.remotes.foldl (fun (acc : Links × List (Nat × Bool)) remote =>
-      match alGet acc.1.backwards remote with
-      | some lanes =>
-        let lanes' := setErase lanes id
-        if lanes'.isEmpty then ({ acc.1 with backwards := alErase acc.1.backwards remote }, acc.2 ++ [(remote, true)])
-        else ({ acc.1 with backwards := alSet acc.1.backwards remote lanes' }, acc.2 ++ [(remote, false)])
-      | none => (acc.1, acc.2 ++ [(remote, false)])) (l1, [])
+  | some e => e.remotes.foldl (unlinkBack id) (l.dropLane id e, [])
+
+def clearEntry (p : Nat × LaneLinks) : Nat × LaneLinks := (p.1, { p.2 with remotes := [] })
+
+/-- every reporter of a lane in `ps` is told `0` (`take_remotes`) -/
+def zeroFold (ps : List (Nat × LaneLinks)) (acc : Links) : Links :=
+  ps.foldl (fun (acc : Links) (p : Nat × LaneLinks) => if p.2.hasReporter then acc.setLaneLinks p.1 0 else acc) acc
+
+def Links.pairs (l : Links) : List (Nat × Nat) :=
+  l.forward.flatMap (fun (p : Nat × LaneLinks) => p.2.remotes.map (fun r => (p.1, r)))
+
+def Links.removeAllBase (l : Links) : Links :=
+  if l.hasAgg then
+    { l with backwards := [], total := l.total - l.pairs.length, forward := l.forward.map clearEntry,
+             agg := { l.agg with links := 0 } }
+  else
+    { l with backwards := [], total := l.total - l.pairs.length, forward := l.forward.map clearEntry }
 
 /-- `Links::remove_all_links`, iterator fully consumed: all `(lane, remote)` pairs. -/
 def Links.removeAllLinks (l : Links) : Links × List (Nat × Nat) :=
-  let pairs := l.forward.flatMap (fun (p : Nat × LaneLinks) => p.2.remotes.map (fun r => (p.1, r)))
-  let l1 := { l with backwards := [], total := l.total - pairs.length,
-                     forward := l.forward.map (fun (p : Nat × LaneLinks) => (p.1, { p.2 with remotes := [] })) }
-  let l2 := if l1.hasAgg then { l1 with agg := { l1.agg with links := 0 } } else l1
-  (l.forward.foldl (fun (acc : Links) (p : Nat × LaneLinks) => if p.2.hasReporter then acc.setLaneLinks p.1 0 else acc) l2, pairs)
+  (zeroFold l.forward l.removeAllBase, l.pairs)
+
+/-- `count_events(n)` on the lane's reporter (if any) and on the aggregate reporter -/
+def Links.addEvents (l : Links) (id : Nat) (hasRep : Bool) (n : Nat) : Links :=
+  { (if hasRep then l.addLaneEvents id n else l) with
+    agg := { (if hasRep then l.addLaneEvents id n else l).agg with
+             events := (if hasRep then l.addLaneEvents id n else l).agg.events + n } }
 
 /-- `Links::count_single` -/
 def Links.countSingle (l : Links) (id : Nat) : Links :=
   match l.hasAgg, alGet l.forward id with
-  | true, some e =>
-    let l1 := if e.hasReporter then l.addLaneEvents id 1 else l
-    { l1 with agg := { l1.agg with events := l1.agg.events + 1 } }
+  | true, some e => l.addEvents id e.hasReporter 1
   | _, _ => l
 
 /-- `Links::count_broadcast` -/
 def Links.countBroadcast (l : Links) (id : Nat) : Links :=
   match l.hasAgg, alGet l.forward id with
-  | true, some e =>
-    let n := e.remotes.length
-    let l1 := if e.hasReporter then l.addLaneEvents id n else l
-    { l1 with agg := { l1.agg with events := l1.agg.events + n } }
+  | true, some e => l.addEvents id e.hasReporter e.remotes.length
   | _, _ => l
 
 /-! ### The write task state -/
